@@ -73,12 +73,11 @@ var cumKinds = []struct {
 func (m *mon) runQuantile() {
 	c := m.c
 	cases := c.Pick(2500, 26000)
-	kinds := []string{wNil, wOnes, wInts, wIntsZ, wPos, wMix, wZeros, wPos, wPos}
-	classes := []string{clsCont, clsTies, clsTies, clsConst, clsGrid, clsOffset}
+	kinds := []string{wNil, wNil, wOnes, wInts, wIntsZ, wPos, wPos, wMix, wZeros}
+	classes := []string{clsCont, clsTies, clsTies, clsRuns, clsRuns, clsConst, clsGrid, clsOffset}
 	vrt.Parallel(cases, func(ci int) {
 		r := c.RNG("quantile", ci)
-		class := classes[ci%len(classes)]
-		wk := kinds[ci%len(kinds)]
+		class, wk := cross(ci, classes, kinds) // every data class under every weight kind
 		n := genN(r, 1)
 		e := scaleExps[r.Intn(len(scaleExps))]
 		if class == clsGrid {
@@ -92,7 +91,13 @@ func (m *mon) runQuantile() {
 			// integer weights == replication: the replicated sample has the same
 			// exact quantile function, so it is judged by the same oracle.
 			rx, _ := replicate(x, w)
-			m.quantileCase(r, ci, rx, nil, class, "replicated", false)
+			m.quantileCase(r, ci, rx, nil, class, "replicated", true)
+		}
+		if wk == wNil {
+			// nil weights == unit weights: the same sample with explicit ones is
+			// judged by the same oracle (the CDF values are also compared
+			// directly inside quantileCase).
+			m.quantileCase(r, ci, x, ones(n), class, "ones-of-nil", false)
 		}
 	})
 }
@@ -229,17 +234,15 @@ func (m *mon) quantileCase(r *vrt.Rand, ci int, x, w []float64, class, wk string
 	if !cdfToo {
 		return
 	}
-	// CDF definition on a grid of q
-	qs := []float64{x[0], x[n-1], math.Nextafter(x[0], math.Inf(-1)), math.Nextafter(x[n-1], math.Inf(1)), x[0] - 1, x[n-1] + 1}
-	for k := 0; k < 4; k++ {
-		v := x[r.Intn(n)]
-		qs = append(qs, v, math.Nextafter(v, math.Inf(-1)), math.Nextafter(v, math.Inf(1)))
-		if n > 1 {
-			i := r.Intn(n - 1)
-			qs = append(qs, x[i]+(x[i+1]-x[i])*r.Float64())
+	// CDF definition at every distinct sample value (tied or not), +-1 ulp
+	// around each, between neighbours, below the minimum and above the maximum.
+	qs := qGrid(r, x, 40)
+	allOnes := w != nil
+	for _, v := range w {
+		if v != 1 {
+			allOnes = false
 		}
 	}
-	sort.Float64s(qs)
 	prevF := math.Inf(-1)
 	for _, q := range qs {
 		if !isFinite(q) {
@@ -274,6 +277,18 @@ func (m *mon) quantileCase(r *vrt.Rand, ci int, x, w []float64, class, wk string
 			c.Violationf(sig("CDF", weighted, "decreasing in q"), replay(), "CDF(%v) = %v < %v", q, f, prevF)
 		}
 		prevF = f
+		// nil weights == unit weights at this very q
+		if w == nil || allOnes {
+			other := ones(n)
+			if allOnes {
+				other = nil
+			}
+			var f2 float64
+			if m.try("CDF", "nil-vs-ones", replay, func() { f2 = stat.CDF(q, stat.Empirical, cp(x), other) }) {
+				c.Eval("CDF|ones-vs-nil|"+class, true)
+				m.rel("CDF", "ties-aware q grid", "ones-weights != nil-weights", f, f2, 2*unit, replay)
+			}
+		}
 	}
 }
 
@@ -293,6 +308,27 @@ func genDividers(r *vrt.Rand, x []float64) []float64 {
 	span := hi - lo
 	if span == 0 {
 		span = math.Max(math.Abs(lo), 1)
+	}
+	if r.Intn(4) == 0 {
+		// one divider at every distinct sample value (each tie run is its own
+		// bin; inclusion of the lower edge decides everything), optionally
+		// with the +-1 ulp neighbours as extra dividers
+		d := distinct(x)
+		if len(d) > 30 {
+			d = d[:30:30]
+			d = append(d, hi)
+		}
+		if r.Bool() {
+			for _, v := range append([]float64(nil), d...) {
+				d = append(d, math.Nextafter(v, math.Inf(1)))
+				if v != lo {
+					d = append(d, math.Nextafter(v, math.Inf(-1)))
+				}
+			}
+		}
+		d = append(d, math.Nextafter(hi, math.Inf(1)), hi+span)
+		sort.Float64s(d)
+		return d
 	}
 	nb := r.Range(1, 12)
 	d := make([]float64, 0, nb+3)
@@ -328,11 +364,10 @@ func (m *mon) runHistogram() {
 	c := m.c
 	cases := c.Pick(8000, 78000)
 	kinds := []string{wNil, wOnes, wInts, wIntsZ, wPos, wMix, wZeros}
-	classes := []string{clsCont, clsTies, clsTies, clsConst, clsGrid, clsOffset}
+	classes := []string{clsCont, clsTies, clsTies, clsRuns, clsRuns, clsConst, clsGrid, clsOffset}
 	vrt.Parallel(cases, func(ci int) {
 		r := c.RNG("hist", ci)
-		class := classes[ci%len(classes)]
-		wk := kinds[ci%len(kinds)]
+		class, wk := cross(ci, classes, kinds)
 		n := genN(r, 1)
 		e := scaleExps[r.Intn(len(scaleExps))]
 		x := scaleBy(genData(r, class, n), e)
@@ -404,6 +439,13 @@ func (m *mon) runHistogram() {
 		// metamorphic: ones == nil, integer weights == replication
 		var c2 []float64
 		switch wk {
+		case wNil:
+			if m.try("Histogram", wclass, replay, func() { c2 = stat.Histogram(nil, cp(div), cp(x), ones(n)) }) {
+				c.Eval("Histogram|nil-vs-ones|"+class, true)
+				for j := range count {
+					m.rel("Histogram", wclass, "ones-weights != nil-weights", count[j], c2[j], float64(n+8)*u*2*count[j], replay)
+				}
+			}
 		case wOnes:
 			if m.try("Histogram", wclass, replay, func() { c2 = stat.Histogram(nil, cp(div), cp(x), nil) }) {
 				c.Eval("Histogram|ones-vs-nil|"+class, true)
@@ -458,15 +500,20 @@ func (m *mon) runKS() {
 		if n2 > 80 {
 			n2 = r.Range(1, 80)
 		}
-		cls := pickStr(r, "continuous", "shared-ties", "shared-ties", "identical", "disjoint", "shifted")
+		ksClasses := []string{"continuous", "shared-ties", "tie-runs", "ties-vs-continuous", "identical", "disjoint", "shifted"}
+		cls := ksClasses[(ci/(len(kinds)*len(kinds)))%len(ksClasses)] // full cross product with k1, k2 below
 		var x, y []float64
 		switch cls {
+		case "tie-runs":
+			x, y = genData(r, clsRuns, n1), genData(r, clsRuns, n2)
+		case "ties-vs-continuous":
+			x, y = genData(r, clsTies, n1), genData(r, clsCont, n2)
 		case "continuous":
 			x, y = genData(r, clsCont, n1), genData(r, clsCont, n2)
 		case "shared-ties":
 			x, y = genData(r, clsTies, n1), genData(r, clsTies, n2)
 		case "identical":
-			x = genData(r, pickStr(r, clsCont, clsTies), n1)
+			x = genData(r, pickStr(r, clsCont, clsTies, clsRuns), n1)
 			y = cp(x)
 			n2 = n1
 		case "disjoint":
@@ -488,6 +535,20 @@ func (m *mon) runKS() {
 		x, wx = sortTogether(x, wx)
 		y, wy = sortTogether(y, wy)
 		m.ksCase(ci, x, wx, y, wy, cls, k1+"/"+k2)
+		if k1 == wNil {
+			// nil weights == unit weights
+			rp := func() any {
+				return replayCase{"func": "KolmogorovSmirnov", "x": x, "xWeights": nil, "y": y, "yWeights": wy}
+			}
+			var a, b float64
+			if m.try("KolmogorovSmirnov", cls, rp, func() {
+				a = stat.KolmogorovSmirnov(cp(x), nil, cp(y), cp(wy))
+				b = stat.KolmogorovSmirnov(cp(x), ones(n1), cp(y), cp(wy))
+			}) {
+				c.EvalN("KolmogorovSmirnov|nil-vs-ones|"+cls, 2, true)
+				m.rel("KolmogorovSmirnov", "sorted samples", "ones-weights != nil-weights", a, b, float64(n1+n2+8)*u*4, rp)
+			}
+		}
 		if (k1 == wInts || k1 == wIntsZ) && n1 <= 40 {
 			rx, _ := replicate(x, wx)
 			m.ksCase(ci, rx, nil, y, wy, cls, "replicated/"+k2)
@@ -564,9 +625,10 @@ func (m *mon) runROC() {
 		if n > 100 {
 			n = r.Range(2, 100)
 		}
-		class := pickStr(r, clsCont, clsTies, clsTies, clsConst)
+		rocClasses := []string{clsCont, clsTies, clsTies, clsRuns, clsRuns, clsConst}
+		class, wk := cross(ci, rocClasses, kinds)            // ties under every weight kind
+		cutMode := (ci / (len(rocClasses) * len(kinds))) % 3 // 0 auto, 1 random given, 2 given at every distinct value +-1 ulp
 		y := genData(r, class, n)
-		wk := kinds[ci%len(kinds)]
 		w := genWeights(r, wk, n)
 		classes := make([]bool, n)
 		sep := r.Float64()
@@ -595,7 +657,10 @@ func (m *mon) runROC() {
 
 		var cutoffs []float64
 		mode := "auto"
-		if r.Bool() {
+		if cutMode == 2 {
+			mode = "given"
+			cutoffs = qGrid(r, y, 25)
+		} else if cutMode == 1 {
 			mode = "given"
 			k := r.Range(1, 8)
 			for i := 0; i < k; i++ {
@@ -701,6 +766,23 @@ func (m *mon) runROC() {
 		}
 		// (the end points (0,0) at thresh=+Inf and (1,1) at thresh=min(y) are
 		// covered by the definition band: 1 - nPos*(1/nPos) may be 2^-53, not 0)
+		if wk == wNil {
+			// nil weights == unit weights, same cutoffs
+			var t2, f2 []float64
+			if m.try("ROC", mode, replay, func() { t2, f2, _ = stat.ROC(cp(cut0), cp(y), append([]bool(nil), classes...), ones(n)) }) {
+				c.Eval("ROC|nil-vs-ones|"+mode+"|"+class, true)
+				if len(t2) != len(tpr) {
+					c.Violationf(sig("ROC", mode, "ones-weights != nil-weights"), replay(), "result lengths %d vs %d", len(tpr), len(t2))
+				} else {
+					for k := range tpr {
+						if !m.rel("ROC.tpr", mode, "ones-weights != nil-weights", tpr[k], t2[k], 2*unit, replay) ||
+							!m.rel("ROC.fpr", mode, "ones-weights != nil-weights", fpr[k], f2[k], 2*unit, replay) {
+							break
+						}
+					}
+				}
+			}
+		}
 		if n <= 6 && ci%7 == 5 && m.wantSample("roc") {
 			c.Sample(replayCase{"func": "ROC", "cutoffs": cut0, "y": y, "classes": classes, "weights": w, "tpr": tpr, "fpr": fpr, "thresh": thr})
 		}
@@ -759,6 +841,19 @@ func (m *mon) runROC() {
 				return
 			}
 		}
+		if wk == wNil {
+			var mn2, ntp2, mx2 []float64
+			if m.try("TOC", "weighted", rpT, func() { mn2, ntp2, mx2 = stat.TOC(append([]bool(nil), classes...), ones(n)) }) && len(ntp2) == n+1 {
+				c.Eval("TOC|nil-vs-ones|"+class, true)
+				for i := 0; i <= n; i++ {
+					if !m.rel("TOC.ntp", "unweighted", "ones-weights != nil-weights", ntp[i], ntp2[i], 2*unitT, rpT) ||
+						!m.rel("TOC.min", "unweighted", "ones-weights != nil-weights", mn[i], mn2[i], 2*unitT, rpT) ||
+						!m.rel("TOC.max", "unweighted", "ones-weights != nil-weights", mx[i], mx2[i], 2*unitT, rpT) {
+						break
+					}
+				}
+			}
+		}
 	})
 	// documented empties
 	c.EvalN("ROC/TOC|empty", 2, false)
@@ -803,7 +898,7 @@ func (m *mon) runSort() {
 		if n < 0 {
 			n = 0
 		}
-		x := genData(r, pickStr(r, clsCont, clsTies, clsConst), n)
+		x := genData(r, pickStr(r, clsCont, clsTies, clsRuns, clsConst), n)
 		var w []float64
 		var l []bool
 		hasW, hasL := ci%2 == 0, ci%4 < 2
